@@ -189,9 +189,16 @@ def tip_cases(tier="quick"):
             for k, d in enumerate(e2e.tip_table(tier))]
 
 
+def _altname_cases():
+    from . import c03
+
+    return [dict(c, wild=False) for c in c03.altname_cases() if c["opts"] != ["--clean"] or c["desc"]["chains"][0]["altmod"] == 1]
+
+
 def parts(tier):
     return [
         Part("tiptable", check, cases=lambda: tip_cases(tier), exhaustive=True),
+        Part("altnames", check, cases=_altname_cases, exhaustive=True),
         Part("e2e", check, strategy=case(), budget=dict(quick=640, thorough=12000)),
         Part("windows", check, strategy=window_case(), budget=dict(quick=240, thorough=5000)),
     ]
